@@ -12,6 +12,7 @@ import (
 	"testing"
 	"time"
 
+	"tunnox-core/internal/cloud/repos"
 	"tunnox-core/internal/packet"
 	"tunnox-core/internal/protocol/session"
 	"tunnox-core/internal/security"
@@ -112,6 +113,23 @@ func c07hNewWorld(t *testing.T, run *vk.Run, nslots, ctlCap, cloudMode int, patt
 		w.clients = append(w.clients, c.ClientID)
 		w.secret[c.ClientID] = c.Secret
 		c.CloseByPeer()
+	}
+	// the same credentials stored under ids far apart in the int64 range (ids are opaque to the
+	// protocol): +2^32, +2^31, +2^62 — every id is a different client
+	cr := repos.NewClientConfigRepository(n.Repo)
+	for i, off := range []int64{1 << 32, 1 << 31, 1 << 62} {
+		base := w.clients[i]
+		cfg, err := cr.GetConfig(base)
+		if err != nil || cfg == nil {
+			t.Fatalf("c07: clone client config: %v", err)
+		}
+		cp := *cfg
+		cp.ID = base + off
+		if err := cr.CreateConfig(&cp); err != nil {
+			t.Fatalf("c07: create cloned client config %d: %v", cp.ID, err)
+		}
+		w.clients = append(w.clients, cp.ID)
+		w.secret[cp.ID] = w.secret[base]
 	}
 	if cloudMode != 0 {
 		n.SM.SetCloudControl(&c07hCloud{CloudControlAPI: session.NewCloudControlAdapter(n.CC), mode: cloudMode, pattern: pattern, run: run})
@@ -296,7 +314,7 @@ func (w *c07hWorld) apply(op c07hOp, seq bool) bool {
 		w.log(desc)
 	case "first":
 		w.mu.Lock()
-		many := len(w.clients) >= 8
+		many := len(w.clients) >= 11
 		w.mu.Unlock()
 		if many {
 			return false
@@ -532,7 +550,7 @@ var c07hKinds = []string{"connect", "connect", "login", "login", "login", "login
 func TestVerifC07HandshakeRandom(t *testing.T) {
 	run := vk.Start(t, "C07", "handshake-random")
 	defer run.Finish()
-	run.Rule("seeded random sequences of 50-200 applicable operations on the mini-server over 4 connection slots and 3 provisioned clients (+ up to 5 registered on the fly), control-connection cap none or 3, cloud-control state calls healthy / always failing / failing on a seeded pattern (injected at the SessionManager-cloud control boundary): connect, full challenge-response login as X (control / tunnel type; X may differ from the connection's current identity = re-authentication; X may be connected elsewhere = duplicate login), login with a wrong key, phase 1 only, first-connect (new identity on a possibly authenticated connection), heartbeat, heartbeat timeout (LastActiveAt into the past, real background sweep), KickOldControlConnection, disconnect command, CloseConnection from outside, transport EOF; invariants after every operation and after the adapter cleanup; distinct = 3-grams of operation kinds")
+	run.Rule("seeded random sequences of 50-200 applicable operations on the mini-server over 4 connection slots and 6 provisioned clients (3 generated ids plus the same credentials under ids +2^32, +2^31, +2^62; + up to 5 registered on the fly), control-connection cap none or 3, cloud-control state calls healthy / always failing / failing on a seeded pattern (injected at the SessionManager-cloud control boundary): connect, full challenge-response login as X (control / tunnel type; X may differ from the connection's current identity = re-authentication; X may be connected elsewhere = duplicate login), login with a wrong key, phase 1 only, first-connect (new identity on a possibly authenticated connection), heartbeat, heartbeat timeout (LastActiveAt into the past, real background sweep), KickOldControlConnection, disconnect command, CloseConnection from outside, transport EOF; invariants after every operation and after the adapter cleanup; distinct = 3-grams of operation kinds")
 	r := run.Rand("seq")
 	nseq := run.Pick(200, 4000)
 	for s := 0; s < nseq && run.Violations() <= 20; s++ {
@@ -545,9 +563,9 @@ func TestVerifC07HandshakeRandom(t *testing.T) {
 		run.Case("random-sequence", s)
 		var grams []string
 		for i, tries := 0, 0; i < n && tries < 20*n; tries++ {
-			op := c07hOp{Kind: c07hKinds[r.Intn(len(c07hKinds))], Slot: r.Intn(4), Cli: r.Intn(3)}
+			op := c07hOp{Kind: c07hKinds[r.Intn(len(c07hKinds))], Slot: r.Intn(4), Cli: r.Intn(6)}
 			if op.Kind == "login" && r.Intn(4) == 0 {
-				op.Cli = r.Intn(8) // also the clients registered on the fly
+				op.Cli = r.Intn(11) // also the clients registered on the fly
 			}
 			if op.Kind == "kick" && r.Intn(3) == 0 {
 				op.Slot = -1
@@ -608,7 +626,7 @@ func TestVerifC07HandshakeConcurrent(t *testing.T) {
 						if k := w.slot(g); k != nil && k.c.ServerClosedTransport() {
 							w.cleanup(k, "read loop ended")
 						}
-						op := c07hOp{Kind: own[rg.Intn(len(own))], Slot: g, Cli: rg.Intn(3)}
+						op := c07hOp{Kind: own[rg.Intn(len(own))], Slot: g, Cli: rg.Intn(6)}
 						switch rg.Intn(6) {
 						case 0:
 							op.Kind = "kick"
